@@ -134,17 +134,37 @@ PROPS = {
         "modelled": ["in-session and session-less retry loops, layer (re)initialisation, LayersDecoder chain, sequence counter: hand models tied by byte-exact correspondence"],
         "assumptions": ["a Send that fails before anything leaves the socket is outside the outcome alphabet (it still consumes a number, which is the safe choice)"],
     },
-    "C01": {
-        "claim": "keys_are_spec: for EVERY credential, suite, random, GUID, session ID and reply script, a returned session's SIK, K1, K2 are the specification's functions (Spec/Rakp.lean) of the exchanged values under the caller's password/KG, so any BMC computing the specification's formulas on the same exchange holds the same keys; session IDs are the Open Session Response's; every later datagram is sealed under exactly these keys (C03 theorems); suites with None/unknown algorithms are refused, never a session. PARTIAL: that the handshake against a conforming BMC succeeds (liveness) is shown by the correspondence run against the independent reference BMC with the verdict 'honest transcript => session, keys equal the BMC's', not by a Lean theorem.",
-        "note": 'trusted: Lean kernel; the byte-level handshake model (newSession = stepOpen / stepRakp2 / stepRakp4 over buildAndSendPayload exchanges, hand-written from v2session_new.go, v2sessionless.go, authenticator.go, hasher.go, confidentiality.go; tied by byte-exact correspondence: every datagram, the result class and SIK/K1/K2 against the real NewV2Session with crypto/rand replaced); HMAC as an abstract function (no cryptographic strength claimed); Spec/Rakp.lean transcribes §13.28-13.32; the reference BMC in the harness (sim.go) is an independent Go implementation used for the model-free verdicts',
-        "technique": "Lean 4 proof (inversion of the handshake model to the specification's key formulas) + byte-exact differential correspondence + reference-BMC verdicts",
-        "ref": '§5 C01',
-        "proofs": ['Bmc.Proofs.C01'],
-        "scenarios": ['hs', 'send'],
-        "rule": 'hs: 9 suites x 6 (thorough 60) credential sets (user 0..16 bytes, password 0..20, KG absent/20 bytes, both lookup modes, privilege 0..5) as honest transcripts of the reference BMC; other BMC password / KG; per authentication algorithm every status in a sample (thorough: all 1..255), other tags, every 3rd (thorough: every) single-bit flip and every truncation length (consistent and inconsistent wrapper length) and 1-3 byte extensions of each of the three replies; lost / garbage / duplicated replies inside each exchange; every algorithm triple 0..4 x 0..5 x 0..3 the BMC may confirm; proposals of None/unknown algorithms; user names of 17..20 bytes. suite: every ordered preference list of length 0..3 (thorough 0..4) over a 5-suite universe x every advertised subset (rotated order) and failing discovery. Non-trivial = every op (each runs a full or failing handshake); distinct = distinct op line.',
-        "modelled": ["newV2Session, openSession/rakpMessage1/rakpMessage3, buildAndSendPayload, the calculate* functions, algorithm constructors and determineCipherSuite are hand models tied by correspondence"],
-        "assumptions": ["the multi-suite path's discovery (RetrieveSupportedCipherSuites) is abstracted to its result in `determine`; its own correctness is C16"],
-    },
+    "C01": {'claim': "LIVENESS handshake_succeeds / keys_agree / transmits_spec_datagrams: against the specification's BMC (Spec/Bmc.lean: Open Session Response, RAKP 2, "
+          'RAKP 4 as datagrams written from Appendix H, keys derived from the fields it received) holding the same password and KG, for EVERY supported suite '
+          '(auth 1..3, integrity 1/2/4, AES), user name <= 16 bytes, privilege nibble, lookup mode, password, KG, console random, BMC session ID/random/GUID '
+          "and EVERY hash function whose outputs fit a datagram (no crypto law needed), newSession transmits exactly three datagrams - the specification's "
+          "Open Session Request, RAKP 1 and RAKP 3 (with the RAKP 3 code the BMC expects) - and returns a session with console ID 1, the BMC's ID, the "
+          "proposed suite and SIK, K1, K2 equal to the BMC's own derivation. SOUNDNESS keys_are_spec: for EVERY credential, suite, random, GUID, session ID "
+          "and reply script, a returned session's SIK, K1, K2 are the specification's functions (Spec/Rakp.lean) of the exchanged values under the caller's "
+          "password/KG; session IDs are the Open Session Response's; every later datagram is sealed under exactly these keys (C03 theorems); suites with "
+          'None/unknown algorithms are refused, never a session. Liveness is stated for the loss-free script (one conforming reply per exchange); '
+          "retransmission after lost/undecodable replies is C10; the correspondence run against the independent reference BMC additionally checks 'honest "
+          "transcript => session, keys equal the BMC's' on the real code.",
+ 'note': 'trusted: Lean kernel; the byte-level handshake model (newSession = stepOpen / stepRakp2 / stepRakp4 over buildAndSendPayload exchanges, hand-written '
+         'from v2session_new.go, v2sessionless.go, authenticator.go, hasher.go, confidentiality.go; tied by byte-exact correspondence: every datagram, the '
+         'result class and SIK/K1/K2 against the real NewV2Session with crypto/rand replaced); HMAC as an abstract function (no cryptographic strength '
+         'claimed); Spec/Rakp.lean transcribes §13.28-13.32; the reference BMC in the harness (sim.go) is an independent Go implementation used for the '
+         'model-free verdicts',
+ 'technique': "Lean 4 proof (inversion of the handshake model to the specification's key formulas) + byte-exact differential correspondence + reference-BMC "
+              'verdicts',
+ 'ref': '§5 C01',
+ 'proofs': ['Bmc.Proofs.C01'],
+ 'scenarios': ['hs', 'send'],
+ 'rule': 'hs: 9 suites x 6 (thorough 60) credential sets (user 0..16 bytes, password 0..20, KG absent/20 bytes, both lookup modes, privilege 0..5) as honest '
+         'transcripts of the reference BMC; other BMC password / KG; per authentication algorithm every status in a sample (thorough: all 1..255), other tags, '
+         'every 3rd (thorough: every) single-bit flip and every truncation length (consistent and inconsistent wrapper length) and 1-3 byte extensions of each '
+         'of the three replies; lost / garbage / duplicated replies inside each exchange; every algorithm triple 0..4 x 0..5 x 0..3 the BMC may confirm; '
+         'proposals of None/unknown algorithms; user names of 17..20 bytes. suite: every ordered preference list of length 0..3 (thorough 0..4) over a 5-suite '
+         'universe x every advertised subset (rotated order) and failing discovery. Non-trivial = every op (each runs a full or failing handshake); distinct = '
+         'distinct op line.',
+ 'modelled': ['newV2Session, openSession/rakpMessage1/rakpMessage3, buildAndSendPayload, the calculate* functions, algorithm constructors and '
+              'determineCipherSuite are hand models tied by correspondence'],
+ 'assumptions': ["the multi-suite path's discovery (RetrieveSupportedCipherSuites) is abstracted to its result in `determine`; its own correctness is C16"]},
     "C02": {
         "claim": "session_sound: for every reply script, a session is returned ONLY IF the Open Session Response echoes the tag with status OK and the proposed algorithms, RAKP 2 has tag/status OK and its AuthCode equals the specification's keyed hash (under the caller's password) of the exchanged values, and RAKP 4 has tag/status OK and an ICV equal to the specification's keyed hash under the specification's SIK (caller's KG or password); the incorrect-password error arises exactly from a well-formed status-OK RAKP 2 with another code; truncated/malformed replies fail in the per-layer decoders (C05/C07 theorems).",
         "note": 'trusted: Lean kernel; the byte-level handshake model (newSession = stepOpen / stepRakp2 / stepRakp4 over buildAndSendPayload exchanges, hand-written from v2session_new.go, v2sessionless.go, authenticator.go, hasher.go, confidentiality.go; tied by byte-exact correspondence: every datagram, the result class and SIK/K1/K2 against the real NewV2Session with crypto/rand replaced); HMAC as an abstract function (no cryptographic strength claimed); Spec/Rakp.lean transcribes §13.28-13.32; the reference BMC in the harness (sim.go) is an independent Go implementation used for the model-free verdicts',
@@ -225,7 +245,7 @@ PROPS = {
               'reference-parser verdicts on transmitted datagrams',
  'ref': '§5 C06',
  'proofs': ['Bmc.Proofs.C06'],
- 'scenarios': ['enc'],
+ 'scenarios': ['enc', 'send'],
  'rule': 'enc: every request layer; each bit-field exhaustively over the whole Go byte (values beyond the wire width are class M = not claimed), all 256 '
          'session-info indexes, privilege levels, chassis controls, sensor numbers, DCMI parameters, RAKP 3 statuses; user-name lengths 0..24 and up to 1000 '
          '(over 16 must be refused); AuthCode lengths 0..40; wildcard/explicit x every algorithm byte per payload; power-reading periods at every unit '
